@@ -108,6 +108,11 @@ class C04(Prop):
         for m, minv in self.big + self.huge:
             yield {"k": "inverse", "m": m, "exp": minv}
             yield {"k": "compose", "a": m, "b": minv}
+        # operands held in read-only arrays: inverse() and compose() only read them
+        for n in (1, 2):
+            for m, _mi in (self.maps[n][:8] if n == 1 else rng.sample(self.maps[n], 60)):
+                yield {"k": "inverse", "m": m, "ro": True, "pkg": "py"}
+                yield {"k": "compose", "a": m, "b": self.maps[n][0][0], "ro": True, "pkg": "py"}
         # an operand composed with itself (one object in both roles)
         for n in (1, 2):
             for m, _mi in (self.maps[n] if n == 1 else rng.sample(self.maps[n], 300)):
@@ -134,6 +139,14 @@ class C04(Prop):
             if k == "inverse":
                 rec["m"] = scn["m"]
                 M = be.cmap(scn["m"])
+                if scn.get("ro"):
+                    be.freeze(M)
+                    rec["ro"] = True
+                    R = M.inverse()
+                    rec["ret"] = be.p_list(R)
+                    rec["m1"] = be.p_list(M)
+                    rec["fresh"] = (R is not M) and not _shares(be, R, M)
+                    return [rec]
                 R = M.inverse()
                 rec["ret"] = be.p_list(R)
                 rec["m1"] = be.p_list(M)
@@ -164,6 +177,15 @@ class C04(Prop):
             elif k == "compose":
                 rec["a"], rec["b"] = scn["a"], scn["b"]
                 A, B = be.cmap(scn["a"]), be.cmap(scn["b"])
+                if scn.get("ro"):
+                    be.freeze(A)
+                    be.freeze(B)
+                    rec["ro"] = True
+                    R = A.compose(B)
+                    rec["ret"] = be.p_list(R)
+                    rec["a1"], rec["b1"] = be.p_list(A), be.p_list(B)
+                    rec["fresh"] = (R is not A) and (R is not B) and not _shares(be, R, A) and not _shares(be, R, B)
+                    return [rec]
                 if scn.get("same"):
                     B = A
                 R = A.compose(B)
